@@ -1,5 +1,8 @@
 use memmap2::MmapMut;
+#[cfg(not(feature = "verif"))]
 use parking_lot::RwLockReadGuard;
+#[cfg(feature = "verif")]
+use crate::verif_sync::{RwLockReadGuard};
 
 use crate::{Database, Region};
 
